@@ -2,6 +2,9 @@
 import copy
 import json
 import math
+import os
+import shutil
+import tempfile
 from fractions import Fraction
 
 from harness.common import exc_class, coq_list
@@ -10,6 +13,8 @@ GRP = ('code', 'n_k_d', 'error_model', 'decoder', 'error_probability', 'time_ste
 SCAL = ('n_run', 'n_fail', 'n_success', 'error_weight_total', 'wall_time')
 ARR = ('n_logical_commutations', 'custom_totals')
 UNIT = 2 ** 20
+CVU = 4           # custom totals are generated as dyadic quarters k/4: the model sees the integers k
+COUNTS = ('n_run', 'n_fail', 'n_success', 'error_weight_total')
 
 
 def norm(v):
@@ -35,11 +40,42 @@ class Ids:
         return len(self.vals[i]) - 1
 
 
-def ints(a):
+def py(v):
+    """numpy scalars -> Python numbers (value preserving)"""
+    return v.item() if hasattr(v, 'item') and hasattr(v, 'dtype') else v
+
+
+def npdef(o):
+    if hasattr(o, 'item') and hasattr(o, 'dtype'):
+        return o.item()
+    raise TypeError(repr(o))
+
+
+def frac(v):
+    """exact value of a number, None if it is not a (finite) number"""
+    v = py(v)
+    if isinstance(v, bool) or not isinstance(v, (int, float, Fraction)):
+        return None
+    try:
+        return Fraction(v)
+    except (ValueError, OverflowError):
+        return None
+
+
+def zs(v, unit=1):
+    """v * unit as an exact integer string (never truncates: a non-integral value is spelled out, so it cannot be
+    mistaken for the model's integer)"""
+    f = frac(v)
+    if f is None or (f * unit).denominator != 1:
+        return 'NONINT<%r>' % (v,)
+    return str(int(f * unit))
+
+
+def ints(a, unit=1):
     if a is None:
         return '_'
-    a = [int(x) for x in a]
-    return ','.join(map(str, a)) if a else '-'
+    a = [zs(x, unit) for x in a]
+    return ','.join(a) if a else '-'
 
 
 def enc_record(ids, r):
@@ -48,12 +84,36 @@ def enc_record(ids, r):
         ks.append(str(ids.get(i, r[k])) if k in r else '_')
     n = int(norm(r['n_k_d'])[0])
     tv = str(int(r['time_steps'])) if 'time_steps' in r else '_'
-    wall = Fraction(r['wall_time']) * UNIT
-    assert wall.denominator == 1
-    return '%s:%d:%s:%d:%d:%d:%d:%d:%s:%s' % (
-        ','.join(ks), n, tv, r['n_run'], r['n_fail'], r['n_success'], r['error_weight_total'], int(wall),
+    tok = '%s:%d:%s:%s:%s:%s:%s:%s:%s:%s' % (
+        ','.join(ks), n, tv, zs(r['n_run']), zs(r['n_fail']), zs(r['n_success']), zs(r['error_weight_total']),
+        zs(r['wall_time'], UNIT),
         ints(r['n_logical_commutations']) if 'n_logical_commutations' in r else 'A',
-        ints(r['custom_totals']) if 'custom_totals' in r else 'A')
+        ints(r['custom_totals'], CVU) if 'custom_totals' in r else 'A')
+    assert 'NONINT' not in tok, tok      # generated inputs stay inside the model's exact domain
+    return tok
+
+
+def enc_rows(ids, out):
+    """implementation result in the model's format"""
+    rows = []
+    for r in out:
+        if any(k not in r for k in GRP + SCAL + ARR):
+            rows.append('MALFORMED-ROW ' + ','.join(sorted(r)))
+            continue
+        ks = ','.join(str(ids.get(i, r[k])) for i, k in enumerate(GRP))
+        rows.append('%s:%s:%s:%s:%s:%s:%s:%s' % (ks, zs(r['n_run']), zs(r['n_fail']), zs(r['n_success']),
+                                                zs(r['error_weight_total']), zs(r['wall_time'], UNIT),
+                                                ints(r['n_logical_commutations']), ints(r['custom_totals'], CVU)))
+    return ';'.join(rows) if rows else '-'
+
+
+def enc_request(ids, lists):
+    dT, dq = ids.get(5, 1), ids.get(6, 0.0)
+    return 'merge %d %d %s' % (dT, dq, '|'.join(';'.join(enc_record(ids, r) for r in l) if l else '-' for l in lists))
+
+
+def group_key(ids, r):
+    return tuple(ids.get(i, r.get(k, {5: 1, 6: 0.0}.get(i))) for i, k in enumerate(GRP))
 
 
 def canon_rows(rows):
@@ -61,6 +121,7 @@ def canon_rows(rows):
     def num(v):   # Python == identifies 1, 1.0 and True: compare numbers by value, not spelling
         if isinstance(v, (tuple, list)):
             return [num(x) for x in v]
+        v = py(v)
         if isinstance(v, (int, float)) and not isinstance(v, str):
             return float(v)
         return v
@@ -71,14 +132,37 @@ def canon_rows(rows):
 
 
 def run(ctx):
+    import logging
+    logging.getLogger('qecsim').setLevel(logging.ERROR)
+    tmp = tempfile.mkdtemp(prefix='qv_c05_')
+    cwd = os.getcwd()
+    try:
+        _run(ctx, tmp)
+    finally:
+        os.chdir(cwd)
+        shutil.rmtree(tmp, ignore_errors=True)
+
+
+def _run(ctx, tmp):
+    import numpy as np
+    from click.testing import CliRunner
+    import warnings
+    with warnings.catch_warnings():
+        warnings.simplefilter('ignore')
+        import qecsim.cli as qc
     from qecsim import app
     rng = ctx.rng
+    runner = CliRunner()
     ctx.rule = ('pools of records with variants differing in exactly one of the 7 key fields, with/without arrays, '
-                'tuple/list encoded, int/float spelled numbers, legacy field sets; random partitions into 1-5 lists, '
-                'permutations, nested merges, JSON round trips; dyadic wall times so float sums are exact. '
-                'nontrivial = >=2 groups, >=1 group with >=3 records, arrays present')
+                'tuple/list encoded, int/float/numpy-integer spelled numbers, integer and real-valued (dyadic k/4) '
+                'custom totals, legacy field sets; random partitions into 1-5 lists, '
+                'permutations, nested merges, JSON round trips; dyadic wall times so float sums are exact; '
+                'CLI layer: the lists written to data files and merged by `qecsim merge` with every file named once, '
+                'files named twice, the same file under several path spellings, byte-identical copies under other '
+                'names, output to stdout or -o. nontrivial = >=2 groups, >=1 group with >=3 records, arrays present')
     ctx.props_obligations()
     req, exp, kern = [], [], []
+    cli_req = []
 
     def base_record():
         n = rng.choice([5, 7, 13, 25])
@@ -88,15 +172,21 @@ def run(ctx):
                 'error_probability': rng.choice([0.0, 0.125, 0.1, 0.5]), 'time_steps': T,
                 'measurement_error_probability': rng.choice([0.0, 0.125]) if T > 1 else 0.0}
 
-    def payload(r, lcs, cvs):
+    def payload(r, lcs, cvs, cvmode):
         nr = rng.randint(1, 50)
         nf = rng.randint(0, nr)
         r = dict(r)
+
+        def cv():
+            # custom totals are sums of a decoder's numeric custom values: integers or reals (dyadic so sums are exact)
+            if cvmode == 'int' or (cvmode == 'mixed' and rng.random() < 0.5):
+                return rng.randint(-5, 30)
+            return rng.randint(-20, 120) / CVU
         r.update({'n_run': nr, 'n_fail': nf, 'n_success': nr - nf, 'error_weight_total': rng.randint(0, 200),
                   'error_weight_pvar': rng.random(), 'logical_failure_rate': nf / nr, 'physical_error_rate': rng.random(),
                   'wall_time': rng.randint(0, 5000) / 1024.0,
                   'n_logical_commutations': None if lcs is None else tuple(rng.randint(0, nr) for _ in range(lcs)),
-                  'custom_totals': None if cvs is None else tuple(rng.randint(-5, 30) for _ in range(cvs))})
+                  'custom_totals': None if cvs is None else tuple(cv() for _ in range(cvs))})
         return r
 
     def variant(r):
@@ -116,7 +206,8 @@ def run(ctx):
         return r
 
     def respell(r):
-        """same record, spelled differently: list for tuple, float for int and vice versa, legacy field sets"""
+        """same record, spelled differently: list for tuple, float for int and vice versa, numpy integers, legacy
+        field sets"""
         r = dict(r)
         if rng.random() < 0.4:
             r['n_k_d'] = list(r['n_k_d'])
@@ -128,6 +219,23 @@ def run(ctx):
             r['time_steps'] = 1.0
         if rng.random() < 0.2 and r['error_probability'] in (0.0, 1.0):
             r['error_probability'] = int(r['error_probability'])
+        u = rng.random()
+        if u < 0.12:      # counts written as 5.0 (files produced / edited by other tools)
+            for k in COUNTS:
+                if rng.random() < 0.6:
+                    r[k] = float(r[k])
+            for k in ARR:
+                if r[k] is not None and rng.random() < 0.6:
+                    r[k] = type(r[k])(float(x) for x in r[k])
+        elif u < 0.2:     # counts that are numpy integers (aggregates built with numpy by the caller)
+            for k in COUNTS:
+                if rng.random() < 0.6:
+                    r[k] = np.int64(r[k])
+            for k in ARR:
+                if r[k] is not None and rng.random() < 0.6:
+                    r[k] = type(r[k])(np.int64(x) if float(x).is_integer() else x for x in r[k])
+        if rng.random() < 0.1 and float(r['wall_time']).is_integer():
+            r['wall_time'] = int(r['wall_time'])
         if rng.random() < 0.15 and r['time_steps'] == 1 and r['measurement_error_probability'] == 0.0:
             del r['time_steps'], r['measurement_error_probability']          # 0.10 / 0.15 files
         if rng.random() < 0.15 and r['n_logical_commutations'] is None and r['custom_totals'] is None:
@@ -144,12 +252,153 @@ def run(ctx):
         except Exception as e:  # noqa
             return None, 'ERR ' + exc_class(e)
 
-    for it in range(ctx.pick(2000, 20000)):
+    def inconsistent(groups):
+        for g in groups.values():
+            for k in ARR:
+                vs = [r.get(k) for r in g]
+                if any(v is None for v in vs) != all(v is None for v in vs) or \
+                        len({len(v) for v in vs if v is not None}) > 1:
+                    return True
+        return False
+
+    def check_rows(out, flat, ids, rep, pre=''):
+        """the property evaluated directly on a successful merge result `out` of the records `flat` (in input order);
+        all sums compared by exact value"""
+        groups = {}
+        for r in flat:
+            groups.setdefault(group_key(ids, r), []).append(r)
+        if len(out) != len(groups):
+            ctx.violation(pre + 'groups', 'number of output rows != number of distinct 7-field keys', rep)
+        for r in out:
+            if set(r) != set(GRP + SCAL + ARR + ('logical_failure_rate', 'physical_error_rate')):
+                ctx.violation(pre + 'row-fields', 'unexpected field set in merged row', dict(rep, fields=sorted(r)))
+                return False
+        for r in out:
+            g = groups.get(tuple(ids.get(i, r[k]) for i, k in enumerate(GRP)))
+            if g is None:
+                ctx.violation(pre + 'groups', 'output row with a key no input has', rep)
+                continue
+            for k in SCAL:
+                if frac(r[k]) is None or frac(r[k]) != sum(frac(x[k]) for x in g):
+                    ctx.violation(pre + 'conservation-' + k, '%s not conserved' % k, rep)
+            for k in ARR:
+                vs = [x.get(k) for x in g]
+                want = None if vs[0] is None else tuple(sum(frac(x) for x in c) for c in zip(*vs))
+                got = r[k] if r[k] is None or not isinstance(r[k], (tuple, list)) else tuple(frac(x) for x in r[k])
+                if got != want or (pre == '' and r[k] is not None and type(r[k]) is not tuple):
+                    ctx.violation(pre + 'conservation-' + k, '%s not the element-wise sum' % k, rep)
+            ok = all(frac(r[k]) is not None for k in COUNTS) and frac(r['n_run']) > 0
+            if not ok or py(r['logical_failure_rate']) != py(r['n_fail']) / py(r['n_run']) or \
+                    ulps(py(r['physical_error_rate']), float(frac(r['error_weight_total']) / (
+                        Fraction(norm(r['n_k_d'])[0]) * frac(r['time_steps']) * frac(r['n_run'])))) > 4:
+                ctx.violation(pre + 'rates', 'rates not recomputed from the sums', rep)
+        first = []
+        for r in flat:
+            gk = group_key(ids, r)
+            if gk not in first:
+                first.append(gk)
+        if [tuple(ids.get(i, r[k]) for i, k in enumerate(GRP)) for r in out] != first:
+            ctx.violation(pre + 'row-order', 'rows not in first-occurrence order', rep)
+        return True
+
+    # ---------------------------------------------------------------- CLI layer
+    def cli_layer(it, lists):
+        """the same records as data files merged by `qecsim merge`: every partition into argument lists includes
+        argument lists that name a file once, twice, under several spellings, or as byte-identical copies"""
+        texts = [json.dumps(l, default=npdef) for l in lists]
+        jl = [json.loads(t) for t in texts]
+        d = os.path.join(tmp, 'c%d' % it)
+        os.makedirs(os.path.join(d, 'sub'))
+        os.chdir(d)
+        try:
+            names = ['data_%d.json' % i for i in range(len(texts))]
+            for nm, t in zip(names, texts):
+                with open(nm, 'w') as f:
+                    f.write(t)
+            nf = len(names)
+            once = list(range(nf))
+            rng.shuffle(once)
+            seq = list(range(nf)) + [rng.randrange(nf) for _ in range(rng.randint(1, 3))]
+            rng.shuffle(seq)
+            plans = [('once', once, [names[i] for i in once]), ('twice', seq, [names[i] for i in seq])]
+            spell, copies, seen = [], [], {}
+            for j, i in enumerate(seq):
+                c = seen.get(i, 0)
+                seen[i] = c + 1
+                spell.append([names[i], './' + names[i], os.path.join(d, names[i]), 'sub/../' + names[i]][c % 4])
+                if c == 0:
+                    copies.append(names[i])
+                else:
+                    cp = 'copy%d_of_%s' % (c, names[i])
+                    shutil.copyfile(names[i], cp)
+                    copies.append(cp)
+            plans += [('spellings', seq, spell), ('copies', seq, copies)]
+            for pname, idxs, args in plans:
+                mode = rng.choice(['stdout', 'file'])
+                outname = 'out_%s.json' % pname
+                res = runner.invoke(qc.cli, ['merge'] + (['-o', outname] if mode == 'file' else []) + args)
+                text = None
+                if mode == 'file':
+                    if os.path.exists(outname):
+                        with open(outname) as f:
+                            text = f.read()
+                else:
+                    lines = [ln for ln in (res.stdout or '').splitlines() if ln.strip()]
+                    text = lines[-1] if lines else None
+                try:
+                    out = json.loads(text) if text is not None else None
+                    if not isinstance(out, list) or not all(isinstance(r, dict) for r in out):
+                        out = None
+                except ValueError:
+                    out = None
+                mlists = [jl[i] for i in idxs]
+                flat = [r for l in mlists for r in l]
+                ids = Ids()
+                line = enc_request(ids, mlists)
+                impl = enc_rows(ids, out) if (res.exit_code == 0 and out is not None) else \
+                    ('ERR exit=%s no-data' % res.exit_code if res.exit_code == 0 else 'ERR ValueError')
+                rep = {'files': dict(zip(names, texts)), 'copies': 'copyN_of_X is a byte-identical copy of X',
+                       'command': ['qecsim', 'merge'] + (['-o', outname] if mode == 'file' else []) + args,
+                       'exit_code': res.exit_code, 'output': text if text is None else text[:2000],
+                       'exception': repr(res.exception) if res.exception else None}
+                groups = {}
+                for r in flat:
+                    groups.setdefault(group_key(ids, r), []).append(r)
+                ctx.count(('cli', pname, line), len(groups) >= 2 and len(idxs) > nf, 'cli-' + pname)
+                cli_req.append((line, impl, rep, pname))
+                incons = inconsistent(groups)
+                if incons != (res.exit_code != 0):
+                    ctx.violation('cli-error-iff', '`qecsim merge` fails iff some group over the named files has '
+                                  'inconsistent arrays: violated', rep)
+                    continue
+                if incons:
+                    if out is not None and mode == 'file':
+                        ctx.violation('cli-error-iff', '`qecsim merge` failed but wrote merged data', rep)
+                    continue
+                if out is None:
+                    ctx.violation('cli-output', '`qecsim merge` exit 0 without a JSON list of records', rep)
+                    continue
+                # conservation etc. over the MENTIONS (a file named twice is two argument lists)
+                check_rows(out, flat, ids, rep, 'cli-' + pname + '-')
+                try:
+                    api = canon_rows(app.merge(*copy.deepcopy(mlists)))
+                except Exception as e:  # noqa
+                    api = 'ERR ' + exc_class(e)
+                if canon_rows(out) != api:
+                    ctx.violation('cli-%s-vs-api' % pname, '`qecsim merge` result differs from app.merge over the lists '
+                                  'of the named files (one list per mention)', dict(rep, api=api if isinstance(api, str) else api[:3]))
+        finally:
+            os.chdir(tmp)
+            shutil.rmtree(d, ignore_errors=True)
+
+    n_iter = ctx.pick(2000, 20000)
+    for it in range(n_iter):
         bases = [base_record() for _ in range(rng.randint(1, 3))]
         bases += [variant(rng.choice(bases)) for _ in range(rng.randint(0, 3))]
         shapes = {}
         recs = []
         bad = rng.random() < 0.15   # malformed stream: inconsistent arrays inside one group
+        cvmode = rng.choice(['int', 'int', 'quarter', 'quarter', 'mixed'])
         for _ in range(rng.randint(1, 9)):
             b = rng.choice(bases)
             key = json.dumps([norm(b[k]) for k in GRP], default=str)
@@ -158,7 +407,7 @@ def run(ctx):
             lcs, cvs = shapes[key]
             if bad and rng.random() < 0.3:
                 lcs = rng.choice([None, 0, 1, 2, 4])
-            recs.append(respell(payload(b, lcs, cvs)))
+            recs.append(respell(payload(b, lcs, cvs, cvmode)))
         nl = rng.randint(1, 5)
         lists = [[] for _ in range(nl)]
         for r in recs:
@@ -171,41 +420,25 @@ def run(ctx):
                                     for a, b in zip(la, lb) for k in a):
             ctx.violation('mutation', 'merge mutated its input lists', {'lists': snapshot})
         ids = Ids()
-        dT, dq = ids.get(5, 1), ids.get(6, 0.0)
-        line = 'merge %d %d %s' % (dT, dq, '|'.join(';'.join(enc_record(ids, r) for r in l) if l else '-' for l in lists))
-        # ---- implementation result in the model's format
-        if out is None:
-            impl = err
-        else:
-            rows = []
-            for r in out:
-                if any(k not in r for k in GRP + SCAL + ARR):
-                    rows.append('MALFORMED-ROW ' + ','.join(sorted(r)))
-                    continue
-                ks = ','.join(str(ids.get(i, r[k])) for i, k in enumerate(GRP))
-                rows.append('%s:%d:%d:%d:%d:%d:%s:%s' % (ks, r['n_run'], r['n_fail'], r['n_success'],
-                                                        r['error_weight_total'], int(Fraction(r['wall_time']) * UNIT),
-                                                        ints(r['n_logical_commutations']), ints(r['custom_totals'])))
-            impl = ';'.join(rows) if rows else '-'
+        line = enc_request(ids, lists)
+        impl = err if out is None else enc_rows(ids, out)
         req.append(line)
         exp.append((impl, out))
         groups = {}
         for r in recs:
-            groups.setdefault(tuple(ids.get(i, r.get(k, {5: 1, 6: 0.0}.get(i))) for i, k in enumerate(GRP)), []).append(r)
+            groups.setdefault(group_key(ids, r), []).append(r)
         nontriv = len(groups) >= 2 and any(len(g) >= 3 for g in groups.values()) and \
             any(r.get('n_logical_commutations') is not None for r in recs)
         ctx.count(line, nontriv, 'malformed' if bad else 'wellformed',
                   {'lists': [[{k: v for k, v in r.items() if k in GRP + ('n_run', 'n_logical_commutations')} for r in l]
                              for l in lists], 'result': impl[:200]} if it % 500 == 3 else None)
+        if any(frac(x) is not None and frac(x).denominator != 1 for r in recs for x in (r.get('custom_totals') or ())):
+            ctx.extra['cases_with_real_valued_custom_totals'] = ctx.extra.get('cases_with_real_valued_custom_totals', 0) + 1
         rep = {'lists': snapshot, 'result': impl}
+        if it % ctx.pick(8, 10) == 0:
+            cli_layer(it, lists)
         # ---- the property evaluated directly on the implementation
-        incons = False
-        for g in groups.values():
-            for k in ARR:
-                vs = [r.get(k) for r in g]
-                if any(v is None for v in vs) != all(v is None for v in vs) or \
-                        len({len(v) for v in vs if v is not None}) > 1:
-                    incons = True
+        incons = inconsistent(groups)
         if incons != (out is None):
             ctx.violation('error-iff', 'ValueError raised iff some group has inconsistent arrays fails', rep)
             continue
@@ -215,40 +448,8 @@ def run(ctx):
             if o2 is not None:
                 ctx.violation('error-order', 'array mismatch accepted in another order', rep)
             continue
-        if len(out) != len(groups):
-            ctx.violation('groups', 'number of output rows != number of distinct 7-field keys', rep)
-        fields_ok = True
-        for r in out:
-            if set(r) != set(GRP + SCAL + ARR + ('logical_failure_rate', 'physical_error_rate')):
-                ctx.violation('row-fields', 'unexpected field set in merged row', dict(rep, fields=sorted(r)))
-                fields_ok = False
-        if not fields_ok:
+        if not check_rows(out, [x for l in lists for x in l], ids, rep):
             continue
-        for r in out:
-            gk = tuple(ids.get(i, r[k]) for i, k in enumerate(GRP))
-            g = groups.get(gk)
-            if g is None:
-                ctx.violation('groups', 'output row with a key no input has', rep)
-                continue
-            for k in SCAL:
-                if r[k] != sum(x[k] for x in g):
-                    ctx.violation('conservation-' + k, '%s not conserved' % k, rep)
-            for k in ARR:
-                vs = [x.get(k) for x in g]
-                want = None if vs[0] is None else tuple(sum(c) for c in zip(*vs))
-                if r[k] != want:
-                    ctx.violation('conservation-' + k, '%s not the element-wise sum' % k, rep)
-            if r['logical_failure_rate'] != r['n_fail'] / r['n_run'] or \
-                    ulps(r['physical_error_rate'], float(Fraction(r['error_weight_total']) / (
-                        Fraction(norm(r['n_k_d'])[0]) * Fraction(r['time_steps']) * r['n_run']))) > 4:
-                ctx.violation('rates', 'rates not recomputed from the sums', rep)
-        first = []
-        for r in [x for l in lists for x in l]:
-            gk = tuple(ids.get(i, r.get(k, {5: 1, 6: 0.0}.get(i))) for i, k in enumerate(GRP))
-            if gk not in first:
-                first.append(gk)
-        if [tuple(ids.get(i, r[k]) for i, k in enumerate(GRP)) for r in out] != first:
-            ctx.violation('row-order', 'rows not in first-occurrence order', rep)
         c0 = canon_rows(out)
         # permutation / partition / merge of merges / JSON / idempotence
         perm = recs[:]
@@ -259,8 +460,8 @@ def run(ctx):
             'partition': lambda: app.merge(*[[r] for r in perm]),
             'merge-of-merges': lambda: app.merge(app.merge(perm[:cut]), app.merge(perm[cut:])),
             'incremental': lambda: app.merge(app.merge(app.merge(perm[:cut]), perm[cut:])),
-            'json': lambda: app.merge(*json.loads(json.dumps(lists))),
-            'json-output': lambda: app.merge(json.loads(json.dumps(out))),
+            'json': lambda: app.merge(*json.loads(json.dumps(lists, default=npdef))),
+            'json-output': lambda: app.merge(json.loads(json.dumps(out, default=npdef))),
             'idempotent': lambda: app.merge(out),
         }
         for name, f in laws.items():
@@ -272,6 +473,14 @@ def run(ctx):
                 ctx.violation('law-' + name, 'merge law "%s" fails' % name, dict(rep, other=c1 if isinstance(c1, str) else c1[:3]))
         if len(kern) < 60 and len(recs) <= 6:
             kern.append(line)
+
+    # ---- CLI layer vs the model merge of the mentioned lists
+    cli_m = ctx.model('c05', [c[0] for c in cli_req])
+    for (line, impl, rep, pname), m in zip(cli_req, cli_m):
+        core = m if (m.startswith('ERR') or m == '-') else ';'.join(':'.join(r.split(':')[:8]) for r in m.split(';'))
+        if not ctx.cmp('merge (CLI, %s)' % pname, line[:600], impl, core):
+            ctx.violation('cli-%s-vs-model' % pname, '`qecsim merge` result differs from the model merge of the lists of the '
+                          'named files (one list per mention)', dict(rep, model=core[:1000], impl=impl[:1000]))
 
     outm = ctx.model('c05', req)
     for (impl, out), m, line in zip(exp, outm, req):
